@@ -48,7 +48,7 @@ impl Server {
             match locustdb::server::run(db.clone(), false, vec![], format!("127.0.0.1:{}", port)) {
                 Ok((handle, _rx)) => {
                     let rt = tokio::runtime::Builder::new_multi_thread().worker_threads(4).enable_all().build().map_err(|e| e.to_string())?;
-                    let client = reqwest::Client::builder().timeout(Duration::from_secs(20)).build().map_err(|e| e.to_string())?;
+                    let client = reqwest::Client::builder().timeout(Duration::from_secs(90)).build().map_err(|e| e.to_string())?;
                     let s = Server { db, port, handle, rt, client };
                     // wait until it answers
                     for _ in 0..100 {
@@ -72,6 +72,24 @@ impl Server {
     pub fn get_status(&self, path: &str) -> Option<u16> {
         let url = self.url(path);
         self.rt.block_on(async { self.client.get(url).send().await.ok().map(|r| r.status().as_u16()) })
+    }
+
+    /// the server answers a trivial request (several attempts on fresh connections: a loaded machine is not a dead server)
+    pub fn alive(&self) -> bool {
+        for _ in 0..6 {
+            let url = self.url("/hey");
+            let ok = self.rt.block_on(async {
+                match reqwest::Client::builder().timeout(Duration::from_secs(15)).build() {
+                    Ok(c) => c.get(url).send().await.ok().map(|r| r.status().as_u16()) == Some(200),
+                    Err(_) => false,
+                }
+            });
+            if ok {
+                return true;
+            }
+            std::thread::sleep(Duration::from_millis(500));
+        }
+        false
     }
 
     pub fn stop(self) {
@@ -429,7 +447,7 @@ pub fn replay(s: &Server, ops: &[Op], case: usize, next_batch: &mut usize, seen_
             if let Err((oracle, what)) = compare_multi(&op.ep, &sqls, &a, &embs) {
                 out.push(json!({"oracle": oracle, "ep": op.ep, "sql": sql, "what": what, "panics": crate::util::take_panics()}));
             }
-            if s.get_status("/hey") != Some(200) {
+            if !s.alive() {
                 out.push(json!({"oracle": "alive", "ep": op.ep, "sql": sql, "what": format!("after POST {} {:?} the server does not answer GET /hey", op.ep, sqls)}));
                 return out;
             }
@@ -446,7 +464,7 @@ pub fn replay(s: &Server, ops: &[Op], case: usize, next_batch: &mut usize, seen_
             out.push(json!({"oracle": oracle, "ep": op.ep, "sql": sql, "what": what, "panics": crate::util::take_panics()}));
         }
         // the server keeps answering
-        if s.get_status("/hey") != Some(200) {
+        if !s.alive() {
             out.push(json!({"oracle": "alive", "ep": op.ep, "sql": sql, "what": format!("after POST {} {:?} the server does not answer GET /hey", op.ep, sql)}));
             return out;
         }
